@@ -100,16 +100,37 @@ def check_dataset_pair(ctx, writer_q, reader_q, kind):
     ctx.decide(len(w_sent) == 1 and w_sent == sorted(set(r_sent)), "IOAGREE", f"{site}:sentinel", r, f"empty collections are tagged {w_sent[0] if w_sent else '?'} and recognised by the same literal",
                f"the writer tags empty collections with {w_sent} but the reader tests for {sorted(set(r_sent))}")
     # payload
-    cds = [c for c in wv.calls() if isinstance(c.func, ast.Attribute) and c.func.attr == "create_dataset"]
+    from ..astutil import specialize, call_keywords
+    from .empty import nonempty_guard
+
+    def decide_for(nonempty):
+        def decide(t):
+            if isinstance(t, ast.BoolOp):
+                return None
+            if nonempty_guard(t, "self", True):
+                return nonempty
+            if nonempty_guard(t, "self", False):
+                return not nonempty
+            return None
+        return decide
+
+    # the writer analysed once for a non-empty and once for an empty collection
     branches = {}
-    for c in cds:
-        branches[_emptiness_of_guards(wsi, c)] = c
+    cds = []
+    for empty in (False, True):
+        _fi_s, sv = specialize(m, w, {}, decide=decide_for(not empty))
+        cs = [c for c in sv.calls() if U(sv.expand(c.func, c, allow_mutated=True)).split(".")[-1] == "create_dataset"]
+        cds.extend(cs)
+        if len(cs) == 1:
+            branches[empty] = (cs[0], sv)
     ok = set(branches) == {True, False}
     if ok:
-        full, emp = branches[False], branches[True]
-        d_ = kwarg(full, "data")
-        sh = kwarg(emp, "shape")
-        ok = d_ is not None and U(d_) == "self.data" and sh is not None and U(sh) == "()" and U(full.args[0]) == U(emp.args[0]) == w.params[2]
+        (full, fvs), (emp, evs) = branches[False], branches[True]
+        kf, ke = call_keywords(fvs, full), call_keywords(evs, emp)
+        d_ = (kf or {}).get("data")
+        sh = (ke or {}).get("shape")
+        ok = d_ is not None and U(fvs.expand(d_, full, stop=("self",))) == "self.data" and sh is not None and U(evs.expand(sh, emp)) == "()" and len(full.args) >= 1 and len(emp.args) >= 1 \
+            and U(full.args[0]) == U(emp.args[0]) == w.params[2] and "data" not in (ke or {}) and "shape" not in (kf or {})
     okc = cls_val in (["self[0].__class__.__name__"], ["type(self[0]).__name__"])
     ctx.decide(bool(ok and okc), "IOAGREE", f"{site}:payload", (w, cds[0]) if cds else w,
                "non-empty: dataset = self.data tagged with the members' class name; empty: shape-() dataset under the same key",
@@ -514,6 +535,10 @@ def check_nan_width(ctx, rule="IOAGREE"):
             return "nan"
         if isinstance(v, ast.Call) and U(v.func) in ("float", "np.float64", "np.double") and len(v.args) == 1:
             return classify(v.args[0])
+        if isinstance(v, ast.IfExp) and env.get(var) == "nan":
+            t_ = _nan_truth(v.test, var)
+            if t_ is not None:
+                return classify(v.body if t_ else v.orelse)
         return None
 
     def run(stmts):
